@@ -1019,6 +1019,55 @@ fn canonical_case(g: &Graph, missing: Option<usize>) -> Case {
     sp.case(&sp.canonical(missing.map_or(0, |k| k + 1)), &ot)
 }
 
+// ---------------------------------------------------------------------------
+// A module that does not compile. For every graph and every reachable module k, the canonical
+// texts with module k's declaration naming something undefined: a cycle is still reported as
+// a cycle (whatever else is wrong), an acyclic program fails in the compiler with a name
+// error, and the calls made until then respect the model (nothing twice, imports first).
+
+fn judge_broken(g: &Graph, k: usize) -> Result<(&'static str, u64, u64), Failure> {
+    let mut case = canonical_case(g, None);
+    let url = url_of(k);
+    let text = case.files.get(&url).cloned().unwrap_or_default();
+    case.files.insert(url, text.replacen(&format!("'p{k} str"), &format!("'p{k} undefined{k}"), 1));
+    let m = model(g);
+    let ctx = |obs: &Obs| {
+        format!(
+            "{}; module {} names something undefined; result {:?}; calls [{}]",
+            show_graph(g, None),
+            file_of(k),
+            obs.res,
+            show_calls(&obs.calls)
+        )
+    };
+    let obs = match run_subject(&case.files) {
+        Ok(o) => o,
+        Err((p, calls)) => return Err(panic_failure(&case, &p, &calls)),
+    };
+    if let Some((cause, detail)) = trace_check(g, &m, &obs.calls, false) {
+        return Err(fail("trace", "trace", SITE, &cause, format!("{detail}{}", ctx(&obs))));
+    }
+    let ok = match (&obs.res, m.cyclic) {
+        (Res::Cycle, true) => true,
+        (Res::Other("load", class, _), false) => class == "NotInScope",
+        _ => false,
+    };
+    if !ok {
+        return Err(fail(
+            "wrong-result",
+            "wrong result",
+            SITE,
+            &format!(
+                "{} expected with a module that does not compile, {} returned",
+                if m.cyclic { "CycleDetected" } else { "the compiler's name error" },
+                obs.res.class()
+            ),
+            ctx(&obs),
+        ));
+    }
+    Ok((if m.cyclic { "cycle reported though a module does not compile" } else { "name error of the broken module" }, obs.calls.len() as u64, hash_of(&(&obs.res, &obs.calls))))
+}
+
 /// Runs one case and judges it. `plain` / `with_missing` are caches of the canonical
 /// observations of the graph (filled on demand).
 fn run_case(
@@ -1103,6 +1152,7 @@ impl Engine for C10 {
                 laid(3, 1, "reduced", 3),
                 laid(3, 2, "reduced", 3),
                 laid(3, 4, "reduced", 3),
+                Phase::new("import graphs on <= 3 modules with one reachable module that does not compile", json!({"broken": true, "nmax": 3})),
             ],
             Tier::Thorough => vec![
                 full(1),
@@ -1120,10 +1170,42 @@ impl Engine for C10 {
                 laid(4, 3, "separate", 2),
                 laid(3, 4, "full", 3),
                 laid(4, 4, "separate", 2),
+                Phase::new("import graphs on <= 4 modules with one reachable module that does not compile", json!({"broken": true, "nmax": 4})),
             ],
         }
     }
     fn run_phase(&self, phase: &Phase, sink: &mut Sink) {
+        if phase.param["broken"] == true {
+            set_layout(0);
+            let mut idx = 0u64;
+            for n in 1..=phase.param["nmax"].as_u64().unwrap() as usize {
+                for bits in graphs_simplest_first(n) {
+                    let g = Graph::from_bits(n, bits);
+                    let m = model(&g);
+                    for k in (0..n).filter(|k| m.reach[*k]) {
+                        if sink.mine(idx) {
+                            if sink.expired() {
+                                return;
+                            }
+                            sink.visit(
+                                idx,
+                                || json!({"broken": k, "n": n, "bits": bits}),
+                                |s| match judge_broken(&g, k) {
+                                    Ok((tag, calls, class)) => {
+                                        s.count("transitions", calls);
+                                        s.count("states", 1);
+                                        Outcome::ok(tag, Some(class))
+                                    }
+                                    Err(f) => Outcome::bad(f.tag, f.signature, f.summary, json!({"broken": k, "n": n, "bits": bits})),
+                                },
+                            );
+                        }
+                        idx += 1;
+                    }
+                }
+            }
+            return;
+        }
         let n = phase.param["n"].as_u64().unwrap() as usize;
         set_layout(phase.param["layout"].as_u64().unwrap_or(0) as usize);
         let ot = OrderTable::new(
@@ -1214,6 +1296,13 @@ impl Engine for C10 {
         }
     }
     fn replay(&self, case: &Value) -> Outcome {
+        if let (Some(k), Some(n), Some(bits)) = (case["broken"].as_u64(), case["n"].as_u64(), case["bits"].as_u64()) {
+            set_layout(0);
+            return match judge_broken(&Graph::from_bits(n as usize, bits as u32), k as usize) {
+                Ok((tag, _, _)) => Outcome::ok(tag, None),
+                Err(f) => Outcome::bad(f.tag, f.signature, f.summary, case.clone()),
+            };
+        }
         let Some(c) = Case::from_json(case) else {
             return Outcome::bad(
                 "bad-replay",
@@ -1230,7 +1319,7 @@ impl Engine for C10 {
         }
     }
     fn rule(&self) -> String {
-        "every directed graph on N nodes (2^(N*N) adjacency matrices, self loops included, fewest edges first) read as the import relation of main.oal, m1.oal, ... laid out in one directory and, in the bounds that name a layout, (1) with the imported modules side by side in a sub-directory (a/m1.oal, a/m2.oal, ...), (2) with the same file name in several directories (a/m.oal, m.oal, a/b/m.oal, b/m.oal) and (3) with two pairs of equally named files (a/m1.oal, m2.oal, a/m2.oal, m1.oal), every `use` spelling the target relative to the importing file (so the same spelling denotes different files from different modules, and `..` segments occur); module k is `use \"mj.oal\" as mj;` for each import, `let vk = { 'pk str, 'mj mj.vj ... };`, and main adds `res / on get -> <v0>;`, so the document depends on every reachable module. Per graph the product of: (a) optional `use \"zz.oal\"` (no such file) appended to one module (N+1 choices, unreachable modules included); (b) optional duplicate of one `use` (each edge leaving a reachable module; copy with the same or with the next spelling, written under a second qualifier through which the module's declaration then reaches the import); (c) spelling of the paths over {m.oal, ./m.oal, d/../m.oal}: all plain, each single reachable edge with each alternative, all edges with each alternative, and plain paths with the declaration of every module written before its `use` statements or after the first of them (5+2E choices, not the 3^E product); (d) order of the `use` statements of every reachable module: for N<=3 every permutation of lists of <= 3 statements (so every order of every out-degree) and, for the lists of 4 or 5 statements that arise when a 3-import module also gets the duplicate and/or the missing import, the 2L rotations of the sorted list and of its reverse; for N=4 every permutation of lists of <= 2 statements, longer lists sorted and reversed. Statements of modules unreachable from main are not varied (a correct loader never reads them; reading them is caught in every configuration). Bounds named `full product` cross (a) x (b) x (c) x (d); the bound named `reduced product` (N=3 in the quick tier) takes (c) x (d) without duplicate and missing import, plus (a) x (b) x (d) with plain spelling (the copy of a duplicated use still takes the same or the next spelling); the bound named `separate axes` (N=4) takes (c) x (d), (a) x (d) and (b) x (d). Each configuration runs the real module::load with a recording in-memory Loader (real parse, real compile), then eval + OpenAPI builder + YAML. Oracle: DFS reachability and three-colour cycle detection; result class; load/parse/compile exactly once for exactly the reachable modules; compile(b) before compile(a) for every import a->b; response schema equal to the tree unfolding of the graph; result class and YAML text equal to those of the canonical configuration (sorted order, plain spelling, no duplicate) of the same graph. A configuration is trivial when main imports nothing and nothing is missing; distinct = distinct (result, call trace, document) triples".into()
+        "every directed graph on N nodes (2^(N*N) adjacency matrices, self loops included, fewest edges first) read as the import relation of main.oal, m1.oal, ... laid out in one directory and, in the bounds that name a layout, (1) with the imported modules side by side in a sub-directory (a/m1.oal, a/m2.oal, ...), (2) with the same file name in several directories (a/m.oal, m.oal, a/b/m.oal, b/m.oal) and (3) with two pairs of equally named files (a/m1.oal, m2.oal, a/m2.oal, m1.oal), every `use` spelling the target relative to the importing file (so the same spelling denotes different files from different modules, and `..` segments occur); module k is `use \"mj.oal\" as mj;` for each import, `let vk = { 'pk str, 'mj mj.vj ... };`, and main adds `res / on get -> <v0>;`, so the document depends on every reachable module. Per graph the product of: (a) optional `use \"zz.oal\"` (no such file) appended to one module (N+1 choices, unreachable modules included); (b) optional duplicate of one `use` (each edge leaving a reachable module; copy with the same or with the next spelling, written under a second qualifier through which the module's declaration then reaches the import); (c) spelling of the paths over {m.oal, ./m.oal, d/../m.oal}: all plain, each single reachable edge with each alternative, all edges with each alternative, and plain paths with the declaration of every module written before its `use` statements or after the first of them (5+2E choices, not the 3^E product); (d) order of the `use` statements of every reachable module: for N<=3 every permutation of lists of <= 3 statements (so every order of every out-degree) and, for the lists of 4 or 5 statements that arise when a 3-import module also gets the duplicate and/or the missing import, the 2L rotations of the sorted list and of its reverse; for N=4 every permutation of lists of <= 2 statements, longer lists sorted and reversed. Statements of modules unreachable from main are not varied (a correct loader never reads them; reading them is caught in every configuration). Bounds named `full product` cross (a) x (b) x (c) x (d); the bound named `reduced product` (N=3 in the quick tier) takes (c) x (d) without duplicate and missing import, plus (a) x (b) x (d) with plain spelling (the copy of a duplicated use still takes the same or the next spelling); the bound named `separate axes` (N=4) takes (c) x (d), (a) x (d) and (b) x (d). Each configuration runs the real module::load with a recording in-memory Loader (real parse, real compile), then eval + OpenAPI builder + YAML. Oracle: DFS reachability and three-colour cycle detection; result class; load/parse/compile exactly once for exactly the reachable modules; compile(b) before compile(a) for every import a->b; response schema equal to the tree unfolding of the graph; result class and YAML text equal to those of the canonical configuration (sorted order, plain spelling, no duplicate) of the same graph. In a last bound every graph on <= 3 (thorough 4) modules is run once per reachable module with that module's declaration naming something undefined: a cyclic graph still gives CycleDetected, an acyclic one the compiler's name error, and the calls made until then satisfy the same trace rules. A configuration is trivial when main imports nothing and nothing is missing; distinct = distinct (result, call trace, document) triples".into()
     }
     fn assumptions(&self) -> Vec<String> {
         vec![
